@@ -201,10 +201,14 @@ def cmp_stats(scn, res, m):
         return [("stats-report-missing", None, m["out"][:3])]
     d = {}
     types = {}
+    shares = {}
     for l in m["out"]:
         if l.startswith("type "):
             _, n, c, h, txid = l.split()
             types[n] = (int(c), int(h), txid)
+        elif l.startswith("share "):
+            _, n, txt = l.split()
+            shares[n] = txt
         else:
             k, _, v = l.partition("=")
             d[k] = v
@@ -241,6 +245,11 @@ def cmp_stats(scn, res, m):
     mean("avg-value", "avg_value", Fraction(vol, nout) / 10 ** 8 if nout else None)
     mean("fees-coins", "fees", Fraction(int(d["fees"]), 10 ** 8), 8)
     mean("volume-coins", "volume", Fraction(vol, 10 ** 8), 8)
+    # the printed text of every floating-point figure = the model's exact binary64 + `{:.k}` rendering (F64), character for character
+    for key, idx, mk in (("fees", 0, "f_fees"), ("volume", 0, "f_volume"), ("bigval", 0, "f_bigval"), ("avg_size", 0, "f_avg_size"), ("avg_time", 0, "f_avg_time"),
+                         ("avg_txs", 0, "f_avg_txs"), ("avg_ins", 0, "f_avg_ins"), ("avg_outs", 0, "f_avg_outs"), ("avg_value", 0, "f_avg_value")):
+        if mk in d:
+            eq("text:" + key, g(key, idx), d[mk])
     it = {re.sub(r"\(.*\)", "", k): v for k, v in st["types"].items()}
     if {k: (v[0], v[2], v[3]) for k, v in it.items()} != types:
         out.append(("stats:type-table", {k: (v[0], v[2], v[3]) for k, v in sorted(it.items())}, dict(sorted(types.items()))))
@@ -248,6 +257,8 @@ def cmp_stats(scn, res, m):
         for k, v in it.items():
             if nout and not within(v[1], Fraction(types[k][0] * 100, nout), 2):
                 out.append(("stats:type-share", (k, v[1]), str(Fraction(types[k][0] * 100, nout))))
+            if k in shares and shares[k] != v[1]:
+                out.append(("stats:text:type-share", (k, v[1]), shares[k]))
     return out
 
 
